@@ -60,7 +60,7 @@ func (c *vdCase) drawSpec(depth int, dirBudget *int) *vdSpec {
 }
 
 func (c *vdCase) opCreateChildren() {
-	d := c.pickDir("dir")
+	d := c.pickTreeDir("dir")
 	overwrite := rapid.Bool().Draw(c.rt, "overwrite")
 	n := rapid.IntRange(1, 3).Draw(c.rt, "children")
 	var names []string
@@ -93,8 +93,8 @@ func (c *vdCase) opCreateChildren() {
 // yet in one CreateChildren call, so that one directory reaches 12-16
 // entries. Of two candidate directories the fuller one is filled.
 func (c *vdCase) opWideFill() {
-	d := c.pickDir("dir")
-	if d2 := c.pickDir("dir_alt"); !d2.deleted && !d2.uninit && (d.deleted || d.uninit || len(d2.ents) > len(d.ents)) {
+	d := c.pickTreeDir("dir")
+	if d2 := c.pickTreeDir("dir_alt"); !d2.deleted && !d2.uninit && (d.deleted || d.uninit || len(d2.ents) > len(d.ents)) {
 		d = d2
 	}
 	var absent []string
@@ -203,7 +203,7 @@ func (c *vdCase) createChildren(d *mNode, overwrite bool, names []string, kinds 
 }
 
 func (c *vdCase) opCreateAndEnter() {
-	d := c.pickDir("dir")
+	d := c.pickTreeDir("dir")
 	name := c.pickName(d, "name")
 	if !d.deleted && c.m.liveDirCount() >= 6 {
 		if e := c.m.lookup(d, name); d.uninit || e == nil || !e.child.dir {
@@ -228,7 +228,7 @@ func (c *vdCase) opCreateAndEnter() {
 }
 
 func (c *vdCase) opLookups() {
-	d := c.pickDir("dir")
+	d := c.pickTreeDir("dir")
 	which := rapid.SampledFrom([]string{"LookupChild", "LookupAllChildren", "ReadDir"}).Draw(c.rt, "which")
 	name := ""
 	if which == "LookupChild" {
@@ -261,7 +261,7 @@ func (c *vdCase) opLookups() {
 }
 
 func (c *vdCase) opRemove() {
-	d := c.pickDir("dir")
+	d := c.pickTreeDir("dir")
 	name := c.pickName(d, "name")
 	all := rapid.Bool().Draw(c.rt, "recursive")
 	c.noteDirUse(d, false)
@@ -293,7 +293,7 @@ func (c *vdCase) opRemove() {
 }
 
 func (c *vdCase) opRemoveAllChildren() {
-	d := c.pickDir("dir")
+	d := c.pickTreeDir("dir")
 	deleteSelf := rapid.IntRange(0, 3).Draw(c.rt, "forbid_new_children") == 0
 	if deleteSelf && d == c.m.root && rapid.IntRange(0, 2).Draw(c.rt, "really_root") != 0 {
 		deleteSelf = false
@@ -340,7 +340,7 @@ func (c *vdCase) filterExpected(d *mNode, out *[]*vdFilterItem) {
 }
 
 func (c *vdCase) opFilterChildren() {
-	d := c.pickDir("dir")
+	d := c.pickTreeDir("dir")
 	c.noteBulk(d)
 	c.begin(vdStep{Op: "FilterChildren", Dir: c.dname(d)})
 	var expected []*vdFilterItem
